@@ -803,12 +803,14 @@ func (s *State) extendFunctionEnv(
 		// By definition function parameters are local copies, deref argument values:
 		pval := object.Value(args[paramIdx])
 		needVariable := true
-		if !s.NoReg && pval.Type() == object.INTEGER {
+		if !s.NoReg && pval.Type() == object.INTEGER && env.HasRegisters() {
 			// We will release all these registers just by returning/dropping the env.
-			_, nbody, ok := setupRegister(env, param.Value().Literal(), pval.(object.Integer).Value, newBody)
+			reg, nbody, ok := setupRegister(env, param.Value().Literal(), pval.(object.Integer).Value, newBody)
 			if ok {
 				newBody = nbody
 				needVariable = false
+			} else {
+				env.ReleaseRegister(reg) // not usable for this parameter: keep it for the next ones.
 			}
 		}
 		if needVariable {
